@@ -7,6 +7,8 @@ end-of-input token in its rules and instantiated at BQL.
 -/
 import BW.Proofs.Parser
 import BW.Generated.Grammar
+import BW.Proofs.Hooks
+import BW.Generated.HookFacts
 
 namespace BW.Props.C18
 open BW.Model BW.Generated BW.Proofs.Parser
@@ -103,6 +105,44 @@ theorem one_token_chooses (x : Sym) (k : Tok) (r : List (El Tok Sym)) (h : (El.t
 theorem machine_stateless (f : Nat) (ts : List Tok) (history : List (List Tok)) :
     (history.map (parseKinds bql f), parseKinds bql f ts).2 = parseKinds bql f ts := rfl
 
+/-! ### The hook closures keep no state between statements -/
+
+/-- The three WHERE-clause hooks are closures with a `lastNopToken` each. Whatever they remember from
+    statements parsed earlier with the same parser — accepted or rejected, broken off after a modifier
+    keyword or not — the pattern clauses extracted from a new statement are the same (the model resets a
+    closure when it sees another statement: 7ebb438). -/
+theorem hooks_keep_no_state (stmt : Nat) (hs hp ho hs' hp' ho' : BW.Model.Hooks.HState)
+    (h1 : hs.cur ≠ stmt) (h2 : hp.cur ≠ stmt) (h3 : ho.cur ≠ stmt)
+    (h1' : hs'.cur ≠ stmt) (h2' : hp'.cur ≠ stmt) (h3' : ho'.cur ≠ stmt) (evs : List BW.Model.Hooks.HEv) :
+    (BW.Model.Hooks.wrun { stmt := stmt, hs := hs, hp := hp, ho := ho } evs).map (·.pattern) =
+    (BW.Model.Hooks.wrun { stmt := stmt, hs := hs', hp := hp', ho := ho' } evs).map (·.pattern) :=
+  BW.Proofs.Hooks.hooks_stateless stmt hs hp ho hs' hp' ho' h1 h2 h3 h1' h2' h3' evs
+
+/-! ### Which hook sees which tokens (regenerated by probing the hooks of `grammar.SemanticBQL()`) -/
+
+def succs (s : Sym) : List Sym :=
+  (bql.rules s).flatMap fun alt => alt.filterMap fun e => match e with | .s x => some x | .t _ => none
+
+def reachN : Nat → List Sym → List Sym
+  | 0, l => l
+  | n + 1, l => reachN n (l ++ (l.flatMap succs).filter (fun x => !l.contains x))
+
+/-- The tokens of a clause's subject part go to the subject hook, those of its predicate part to the
+    predicate hook, those of its object part to the object hook, and to no other; clauses are opened and
+    closed by the next-clause hook, the pattern by the init hook; every alternative of a symbol carries the
+    same hooks. -/
+theorem routing_wf :
+    hooksUniform = true ∧
+    (reachN 6 [.SUBJECT_EXTRACT]).all (fun s => partOf s == .subj) = true ∧
+    (reachN 6 [.PREDICATE]).all (fun s => partOf s == .pred) = true ∧
+    (reachN 6 [.OBJECT]).all (fun s => partOf s == .obj) = true ∧
+    [Sym.FIRST_CLAUSE, .CLAUSES, .OPTIONAL_CLAUSE].all (fun s => partOf s == .subj) = true ∧
+    allSyms.all (fun s => partOf s == .none || (reachN 6 [.SUBJECT_EXTRACT, .PREDICATE, .OBJECT, .FIRST_CLAUSE, .CLAUSES, .OPTIONAL_CLAUSE]).contains s) = true ∧
+    [Sym.FIRST_CLAUSE, .CLAUSES, .MORE_CLAUSES].all (fun s => startHook s == .next && endHook s == .next) = true ∧
+    startHook .WHERE = .init ∧
+    allSyms.all (fun s => (startHook s == .none && endHook s == .none) || [Sym.FIRST_CLAUSE, .CLAUSES, .MORE_CLAUSES, .WHERE].contains s) = true := by
+  decide +kernel
+
 /-! Non-vacuity: a real statement is greedily derivable and accepted. -/
 example : acceptsStatement bql true 64 [.CREATE, .GRAPH, .BINDING, .SEMICOLON] = true := by decide +kernel
 
@@ -118,3 +158,5 @@ end BW.Props.C18
 #print axioms BW.Props.C18.semantic_rejects_more
 #print axioms BW.Props.C18.one_token_chooses
 #print axioms BW.Props.C18.machine_stateless
+#print axioms BW.Props.C18.hooks_keep_no_state
+#print axioms BW.Props.C18.routing_wf
